@@ -5,6 +5,7 @@ import (
 	"context"
 	stdjson "encoding/json"
 	"fmt"
+	"math"
 	"reflect"
 	"runtime"
 	"strings"
@@ -58,6 +59,61 @@ func c08Interps() []c08Interp {
 		}},
 		{"vm:MarshalNoEscape", func(x any) ([]byte, error) { return gojson.MarshalNoEscape(x) }},
 	}
+}
+
+// c08AfterErrors: after an entry point has failed (cycle, non-finite float, failing marshaler,
+// unsupported type), encoding an acyclic value whose marshaler encodes with the library itself (two
+// pooled contexts in use at once) must still be safe and give encoding/json's bytes.
+func c08AfterErrors(c *rt.Ctx, sub0 int, interps []c08Interp) {
+	cyc := &zoo.RecB{V: 1}
+	cyc.R = cyc
+	failing := []any{cyc, math.NaN(), []float64{1, math.Inf(1)}, map[string]any{"c": make(chan int)}, zoo.MErr{N: 1}, struct{ F func() }{}, []any{1, zoo.MErr{N: 3}}}
+	more := append([]c08Interp{}, interps...)
+	more = append(more, c08Interp{"vm_indent:MarshalIndentWithOption", func(x any) ([]byte, error) {
+		return gojson.MarshalIndentWithOption(x, ">", "\t", gojson.UnorderedMap())
+	}},
+		c08Interp{"vm:Encoder.EncodeWithOption", func(x any) ([]byte, error) {
+			var buf bytes.Buffer
+			err := gojson.NewEncoder(&buf).EncodeWithOption(x, gojson.DisableHTMLEscape())
+			return buf.Bytes(), err
+		}})
+	good := []any{c11Nested{A: 1, In: map[string]any{"k": []any{1.0, "x"}}}, []c11Nested{{A: 2, In: []any{"a", "b"}}, {A: 3, In: "s"}}}
+	var want []string
+	for _, g := range good {
+		w, _ := stdjson.Marshal(g)
+		want = append(want, string(w))
+	}
+	for i := range more {
+		ip := &more[i]
+		sub := sub0 + i
+		if !c.Cur(sub, "shapes=core\nafter a failing call of "+ip.name) {
+			continue
+		}
+		for fi, f := range failing {
+			var ferr error
+			pan, _, _ := rt.Guard(func() { _, ferr = ip.f(f) })
+			if !pan && ferr == nil {
+				c.Obs("after_error_first_call_did_not_fail", 1)
+			}
+			for rep := 0; rep < 2; rep++ {
+				gi := (fi + rep) % len(good)
+				var out []byte
+				var err error
+				pan, msg, frame := rt.Guard(func() { out, err = gojson.Marshal(good[gi]) })
+				c.Eval(1)
+				if pan || err != nil || string(out) != want[gi] {
+					if frame == "" {
+						frame = "no-gojson-frame"
+					}
+					c.Violate(rt.Violation{Monitor: "enc-safety", Entry: ip.name, Kind: "nested-encode-wrong-after-error", Ctx: fmt.Sprintf("failing-value-%d", fi),
+						Detail: fmt.Sprintf("after %s failed on %T, Marshal of a value whose marshaler calls Marshal gave %s err=%v panic=%v %s; want %s", ip.name, f, rt.Q(out), err, pan, msg, want[gi]), Sub: sub})
+					break
+				}
+			}
+		}
+		c.NonTrivial("after-error", ip.name)
+	}
+	c.Obs("after_error_histories", int64(len(more)*len(failing)))
 }
 
 func c08Run(c *rt.Ctx, sub int, x any, t reflect.Type, feat string, interps []c08Interp, cyclic bool) {
@@ -520,6 +576,9 @@ func init() {
 				c08StackResident(c, 100)
 				if k == 18 {
 					c08Huge(c, 500, interps)
+				}
+				if k == 19 {
+					c08AfterErrors(c, 900, interps)
 				}
 				c.Sample(map[string]any{"family": "GC/stack-growth callbacks", "values": 12, "stack_resident_entry_points": len(stackEntries)})
 			}
